@@ -25,7 +25,7 @@ RULE = ("op lines come from one seeded PRNG: valid payloads of every witness ver
         "separator, case variant and non-alphabet characters), adjacent transposition, case flip and truncation; "
         "a case is non-trivial when the implementation did not refuse it; distinct = distinct (stream, op line)")
 TRUSTED = [
-    "hand models Model/C06/{Bech32,BitRegroup,Base58,Address,KeyText,Slip132}.lean tied by correspondence only "
+    "hand models Model/C06/{Bech32,BitRegroup,Base58,Address,KeyText,Slip132,Bip21}.lean tied by correspondence only "
     "(Slip132's field choices are regenerated from slip132.py's AST)",
     "the x-coordinate predicate of BIP32KeyData.assert_valid is a parameter of the theorems; the driver instantiates "
     "it with Euler's criterion on secp256k1 (hand-written p and n), compared with btclib by the xkey.decv lines",
@@ -34,6 +34,8 @@ TRUSTED = [
     "hashes are parameters of every theorem",
     "text is modelled as code points < 256 (latin-1) with ASCII case mapping; p2pk/p2ms/nulldata classification "
     "is not modelled (answered `other`)",
+    "BIP21: only the query layer on ASCII text is modelled (escapes of octets >= 0x80, the amount field and the "
+    "address are left to the oracles bip21.roundtrip / bip21.repeat; the stream sends no `amount` name)",
 ]
 ASSUMPTIONS = ["str.strip() of surrounding whitespace by b32/b58 address readers is API normalisation, applied "
                "before the reference decoder is consulted"]
@@ -79,6 +81,7 @@ def _try(fn, *a):
         return None
 
 
+_BIP21_ADDR = "bc1qw508d6qejxtdg4y5r3zarvary0c5xw7kv8f3t4"
 _G_SEC = bytes.fromhex("0279be667ef9dcbbac55a06295ce870b07029bfcdb2dce28d959f2815b16f81798")
 
 
@@ -207,6 +210,20 @@ def impl(line: str) -> str:  # noqa: PLR0911, PLR0912
             from btclib.bip32 import BIP32KeyData
             d = BIP32KeyData.b58decode(unT(t[1]), check_validity=False)
             return f"ok {hx(d.version)} {d.depth} {hx(d.parent_fingerprint)} {d.index} {hx(d.chain_code)} {hx(d.key)}"
+        if op == "bip21.query":
+            from btclib.bip21 import Bip21
+            r = Bip21.parse("bitcoin:" + _BIP21_ADDR + "?" + unT(t[1]), check_validity=False)
+            if r.amount is not None:
+                return "out-of-model"
+            items = ([("label", r.label)] if r.label is not None else []) + \
+                ([("message", r.message)] if r.message is not None else []) + list(r.others.items())
+            out = sorted(f"{T(k)}={T(v)}" for k, v in items)
+            return "ok " + (";".join(out) if out else "_")
+        if op == "bip21.quote":
+            from urllib.parse import quote
+
+            from btclib import bip21
+            return "ok " + T(quote(unT(t[1]), safe=bip21._SAFE))
         if op == "xkey.decv":
             from btclib.bip32 import BIP32KeyData
             d = BIP32KeyData.b58decode(unT(t[1]))
@@ -615,6 +632,64 @@ def _o_slip132_address_type(w):
     return ok, note
 
 
+def _pct_respell(text: str, mask: int) -> str:
+    """another spelling of the same text: character i percent-encoded (upper / lower hex) when bit i of mask is set
+    (always, when it is not one `quote` leaves alone)."""
+    from urllib.parse import quote
+    out = []
+    for i, ch in enumerate(text):
+        if (mask >> (2 * i)) & 1 or quote(ch, safe="/:@!$'()*+,;") != ch:  # delimiters and non-ASCII: always escaped
+            enc = "".join(f"%{b:02X}" for b in ch.encode())
+            out.append(enc.lower() if (mask >> (2 * i + 1)) & 1 else enc)
+        else:
+            out.append(ch)
+    return "".join(out)
+
+
+def _o_bip21_roundtrip(w):
+    """parse(serialize(x)) = x; serialize(parse(uri)) = uri for what serialize writes; any percent-respelling of the
+    names and values of that URI parses to the same request."""
+    from decimal import Decimal
+
+    from btclib.bip21 import Bip21
+    amount = None if w["amount"] is None else Decimal(w["amount"])
+    x = Bip21(w["addr"], amount, w["label"], w["message"], dict(w["others"]))
+    uri = x.serialize()
+    y = Bip21.parse(uri)
+    same = (y.address, y.amount, y.label, y.message, dict(y.others)) == \
+        (x.address, x.amount, x.label, x.message, dict(x.others))
+    if not same or y.serialize() != uri:
+        return False, f"{uri!r} parses to {y!r}"
+    head, _, query = uri.partition("?")
+    if query:
+        parts = []
+        for j, el in enumerate(query.split("&")):
+            k, _, v = el.partition("=")
+            from urllib.parse import unquote
+            k2 = _pct_respell(unquote(k), w["mask"] >> (3 * j))
+            v2 = v if unquote(k) == "amount" else _pct_respell(unquote(v), w["mask"] >> (5 * j + 1))
+            parts.append(f"{k2}={v2}")
+        uri2 = head + "?" + "&".join(parts)
+        z = Bip21.parse(uri2)
+        if (z.address, z.amount, z.label, z.message, dict(z.others)) != \
+                (x.address, x.amount, x.label, x.message, dict(x.others)):
+            return False, f"respelling {uri2!r} of {uri!r} parses to {z!r}"
+    return True, uri
+
+
+def _o_bip21_repeat(w):
+    """BIP21: a repeated key is an error, whatever the two spellings of the name (raw / percent-encoded)."""
+    from btclib.bip21 import Bip21
+    name, v1, v2 = w["name"], w["v1"], w["v2"]
+    s1, s2 = _pct_respell(name, w["m1"]), _pct_respell(name, w["m2"])
+    others = "".join(f"&{k}={v}" for k, v in w["between"])
+    uri = f"bitcoin:{w['addr']}?{s1}={v1}{others}&{s2}={v2}"
+    refused, got, note = _refused(Bip21.parse, uri)
+    if refused:
+        return True, note
+    return False, f"{uri!r}: parameter {name!r} given twice ({s1!r}, {s2!r}) accepted as {got!r}"
+
+
 def _o_hrp_range(w):
     """decode(encode(x)) == x for a human-readable part BIP173 allows (33..126)."""
     hrp, data, m = w["hrp"], w["data"], w["m"]
@@ -634,6 +709,7 @@ ORACLES = {
     "key.spelling_network": _o_key_spelling_network, "slip132.address_type": _o_slip132_address_type,
     "spk.addresses_network": _o_spk_addresses_network, "key.prepared_point": _o_prepared_point,
     "wif.roundtrip": _o_wif, "xkey.roundtrip": _o_xkey, "bech32.hrp_range": _o_hrp_range,
+    "bip21.roundtrip": _o_bip21_roundtrip, "bip21.repeat": _o_bip21_repeat,
 }
 
 
@@ -991,6 +1067,49 @@ def run(ctx):  # noqa: PLR0912, PLR0915
             lines.append(f"slip132.version {hx(v)} {k} {v in N.XPRV_VERSIONS_ALL}")
     ctx.stream("slip132", lines)
     ctx.exhaustive_streams.append("slip132")
+
+    # ---- BIP21 URIs: escaping / repeated-parameter rule (model stream) and round trips (real code) ----------------
+    names = ["label", "message", "foo", "req-x", "x", "a b", "k&v", "Label", "%", "é", "amount"]
+    texts = ["", "1", "a b", "Alice+Bob", "50% off", "a&b=c#d?e", "/:@!$'()*+,;", "~_.-", "é€", "x" * 40, "%41"]
+    addrs = [_BIP21_ADDR, "1BvBMSEYstWetqTFn5Au4m4GFg7xJaNVN2", "tb1qw508d6qejxtdg4y5r3zarvary0c5xw7kxpjzsx",
+             _BIP21_ADDR.upper()]
+    for _ in range(ctx.n(150, 1500)):
+        pool = [n for n in names if n != "amount" and not n.lower().startswith("req-")]
+        rng.shuffle(pool)
+        others = {k: rng.choice(texts) for k in pool[: rng.randrange(0, 4)] if k not in ("label", "message")}
+        ctx.check("bip21.roundtrip", {
+            "addr": rng.choice(addrs), "amount": rng.choice([None, "0", "0.001", "20", "1.10000000", "20999999.9"]),
+            "label": rng.choice([None] + texts), "message": rng.choice([None] + texts), "others": sorted(others.items()),
+            "mask": rng.getrandbits(64)})
+    for _ in range(ctx.n(150, 1500)):
+        name = rng.choice(names)
+        rvals = ["0.001", "20"] if name == "amount" else ["a", "b%20c", "1"]
+        ctx.check("bip21.repeat", {
+            "addr": rng.choice(addrs), "name": name, "v1": rng.choice(rvals), "v2": rng.choice(rvals),
+            "m1": rng.choice([0, rng.getrandbits(2 * len(name)), rng.getrandbits(2 * len(name))]),
+            "m2": rng.choice([0, rng.getrandbits(2 * len(name)), rng.getrandbits(2 * len(name))]),
+            "between": [(rng.choice(["z", "y1", "%7A%7a"]), rng.choice(["", "1"]))][: rng.randrange(0, 2)]})
+    lines = []
+    ascii_names = ["label", "message", "foo", "req-x", "x", "a b", "k&v", "Label", "%", "", "="]
+    ascii_texts = [t for t in texts if t.isascii()]
+    for _ in range(ctx.n(400, 4000)):
+        els = []
+        for _ in range(rng.randrange(0, 5)):
+            nm = rng.choice(ascii_names)
+            el = _pct_respell(nm, rng.choice([0, 0, rng.getrandbits(2 * len(nm) + 2)]))
+            if rng.random() < 0.9:
+                v = rng.choice(ascii_texts)
+                el += "=" + (v if rng.random() < 0.3 else _pct_respell(v, rng.getrandbits(2 * len(v) + 2)))
+            els.append(rng.choice([el, el, el, "", el + "%", el + "%4", el + "%zz", "%2" + el]) if rng.random() < 0.25
+                       else el)
+        q = "&".join(els) + rng.choice(["", "", "", "#frag", "#a&b=c", "&"])
+        if "amount" not in q.lower() and "%61" not in q.lower():
+            lines.append(f"bip21.query {T(q)}")
+    for tx in ascii_texts + ascii_names:
+        lines.append(f"bip21.quote {T(tx)}")
+    for _ in range(ctx.n(60, 600)):
+        lines.append(f"bip21.quote {T(''.join(chr(rng.randrange(0, 128)) for _ in range(rng.randrange(0, 12))))}")
+    ctx.stream("bip21", lines)
 
     # ---- WIF and extended keys (real code only) -------------------------------------------------------
     n_order = 0xFFFFFFFFFFFFFFFFFFFFFFFFFFFFFFFEBAAEDCE6AF48A03BBFD25E8CD0364141
